@@ -13,7 +13,7 @@ from petruth import RSP, NONVOL, PE2IDX
 
 RULE = ("synthesized PE programs (8+ functions: push / MSVC home-space saves / frame register with dynamic allocation / "
         "mov-saves after the allocation / alloc-large both forms / bodies longer than 256 and 512 bytes / chained cold regions with and without a prolog of "
-        "their own / leaf functions without table entry) x call chains of depth 1..6 x every interruption point of the "
+        "their own / chains of 1..34 infos / leaf functions without table entry) x call chains of depth 1..6 x every interruption point of the "
         "innermost frame (prolog, body, restore, epilog, ret/jmp) x fresh and warmed cache; plus arbitrary registers and "
         "stack contents at instruction boundaries in first-frame and caller mode; distinct = (shape, phase, next "
         "instruction) for walks, (shape, phase, mode, cached) for the differential part")
@@ -159,6 +159,50 @@ def generate(rng, tier):
                 ln = s.add("msproc M %s %s %s" % (hx(rva), petruth.script_regs(addr, regs), mid))
                 s.meta[ln] = {"spec": None if res is None else [res[0], res[1]]}
         out.append(("pe-%s-%d" % (policy, pi), s))
+    # chains of unwind infos of every length up to the limit Windows itself accepts (32): the operations of all
+    # infos of the chain apply, in order; one more info than that is refused (frame-pointer fallback)
+    for rep in range(2 if tier == "quick" else 8):
+        s = Script("x86", "may" if rep % 2 == 0 else "must")
+        base = 0x7ff600000000 + 0x10000 * rng.below(0x1000)
+        funcs, uinfos = [], {}
+        depths = [1, 2, 3, 16, 30, 31, 32, 33, 34]
+        uid = 0
+        for fi, d in enumerate(depths):
+            first = uid
+            for k in range(d):
+                last = (k == d - 1)
+                # every info of the chain allocates 8 bytes more than its index, the last one pushes rbx first
+                ops = [(4, ("alloc", 8 * (1 + k % 3)))] + ([(1, ("pop", 3))] if last else [])
+                uinfos[uid] = dict(fpreg=None, fpoff=0, ops=ops, chain=(None if last else uid + 1), prolog=4,
+                                   chain_begin=0x1000 + 0x100 * fi, chain_end=0x1000 + 0x100 * fi + 0x80)
+                uid += 1
+            funcs.append((0x1000 + 0x100 * fi, 0x1000 + 0x100 * fi + 0x80, first))
+        text = bytes([0x90]) * (0x100 * len(depths))
+        module_pe(s, "M", base, base + 0x100000, base, IMAGE_BASE, funcs, uinfos, 0x1000, text, xdata_rva=0x80000)
+        s.add("new U"); s.add("add U M"); s.add("newcache C")
+        lo = 0x7ffe0000
+        memd = {lo + 8 * i: 0x7000000 + i for i in range(0x400 * len(depths) // 8 + 64)}
+        sp_of = {}
+        for fi, d in enumerate(depths):
+            total = sum(8 * (1 + k % 3) for k in range(d))
+            sp = lo + 0x400 * fi + 8 * rng.range(0, 8)
+            sp_of[fi] = sp
+            memd[sp + total] = 0x1111000 + fi            # saved rbx
+            memd[sp + total + 8] = base + 0x1000 + 0x100 * rng.below(len(depths)) + 0x20
+        s.mem("S", sorted(memd.items()))
+        for fi, d in enumerate(depths):
+            total = sum(8 * (1 + k % 3) for k in range(d))
+            sp = sp_of[fi]
+            for kind in ("ip", "ra"):
+                pc = base + 0x1000 + 0x100 * fi + 0x40
+                regs = [0] * 16
+                regs[RSP] = sp; regs[5] = lo + 0x3000
+                ln = s.add("unwind U C %s %s %s S" % (kind, hx(pc + (1 if kind == "ra" else 0)), petruth.script_regs(pc, regs)),
+                           tag="deepchain:%d:%s" % (d, kind))
+                if d <= 32:
+                    exp = list(regs); exp[RSP] = sp + total + 16; exp[3] = 0x1111000 + fi
+                    s.meta[ln] = {"ra": memd[sp + total + 8], "caller": exp, "in": regs}
+        out.append(("deepchain-%d" % rep, s))
     return out
 
 def petruth_mod(s, prog, base, notext=False, rdata_ids=()):
